@@ -237,6 +237,81 @@ def single_line(h):
     return len(n) == 1
 
 
+def ver_to_commit(ch):
+    out = {}
+    for i, c in enumerate(ch["commits"]):
+        for bn in c["t"]:
+            out[tuple(bn[:3])] = i
+    return out
+
+
+def pins_cross(owner, comp):
+    """True when along some path of the owner's history the pinned component build moves to a build that does not
+    contain the previously pinned one (the pin moves between parallel sub-branches of the component).  Only the pins
+    of tagged commits and branch heads are ever read."""
+    oh, ch = owner["hist"], comp["hist"]
+    v2c = ver_to_commit(ch)
+    heads = {hd for _, hd in oh["refs"]}
+    elig = [i for i, c in enumerate(oh["commits"]) if c["t"] or i in heads]
+    pinc = {}
+    for i in elig:
+        v = oh["commits"][i].get("pins", {}).get(comp["name"])
+        if v is not None and tuple(v) in v2c:
+            pinc[i] = v2c[tuple(v)]
+    canc = {}
+    for i in pinc:
+        ai = G.anc(oh, i)
+        for k in pinc:
+            if k != i and k in ai:
+                if pinc[i] not in canc:
+                    canc[pinc[i]] = G.anc(ch, pinc[i])
+                if pinc[k] not in canc[pinc[i]]:
+                    return True
+    return False
+
+
+def known_pin_cross(case):
+    line = case["lines"][0]
+    if not line.startswith("col"):
+        return False
+    repos = [dec_repo(t) for t in line.split()[2:]]
+    byname = {r["name"]: r for r in repos}
+    return any(d in byname and pins_cross(r, byname[d]) for r in repos for d in r["deps"])
+
+
+def has_merge(hist):
+    """the release line contains a merge commit reachable from its head (parallel sub-branches)"""
+    reach = set()
+    for nm, hd in hist["refs"]:
+        if nm in ("master", "main") or nm.startswith("release/"):
+            reach |= G.anc(hist, hd)
+    for c in reach:
+        ps = hist["commits"][c]["p"]
+        for a in ps:
+            for b in ps:
+                if a < b and a not in G.anc(hist, b):      # two parents, neither an ancestor of the other
+                    return True
+    return False
+
+
+def known_component_merges(case):
+    line = case["lines"][0]
+    if not line.startswith("col"):
+        return False
+    repos = [dec_repo(t) for t in line.split()[2:]]
+    byname = {r["name"]: r for r in repos}
+    return any(d in byname and has_merge(byname[d]["hist"]) for r in repos for d in r["deps"])
+
+
+KNOWN = {"pin-crosses-parallel-component-builds": known_pin_cross,
+         "component-history-with-merges": known_component_merges}
+# Genuine finding (reported, see LEVEL_NOTE): with a diamond of reported builds in the component history
+# `get_rbuilds_in_bump` registers builds again that an earlier parent build already shipped.  Until the coordinator
+# decides between a `fix:` commit and a `known` entry such scenarios are run for the correspondence only.
+STRICT_PINS = False
+STRICT_MERGES = False
+
+
 def check_included(repos, reports):
     """included_at(R) for parent branch P = the minimal (w.r.t. ancestry) own builds / unbuilt head of P whose pinned
     version contains R.  Judged for components with a single release line only (see DESIGN.md, C07 Search)."""
@@ -250,16 +325,17 @@ def check_included(repos, reports):
         owners = [r for r in repos if comp["name"] in r["deps"]]
         if not owners:
             continue
+        if not STRICT_PINS and any(pins_cross(o, comp) for o in owners):
+            continue
+        if not STRICT_MERGES and has_merge(ch):
+            continue
         # reported component builds, by commit; version -> commit of the tagged component commits
         reported = {}
         for bname, builds in reports[cid]:
             for kind, bn, bc, cs, bumps, incl in builds:
                 if bc is not None:
                     reported[bc] = incl
-        ver2commit = {}
-        for i, c in enumerate(ch["commits"]):
-            for bn in c["t"]:
-                ver2commit[tuple(bn[:3])] = i
+        ver2commit = ver_to_commit(ch)
         canc = {}
         exp = {R: set() for R in reported if ch["commits"][R]["t"]}
         judged = True
@@ -369,17 +445,72 @@ def add_pins(rng, parent_commits, comp_name, comp_commits):
         c["pins"][comp_name] = [M, m, b + 1]
 
 
+def gen_dag_repo(rng, name, n, ptag=0.6, pmatch=0.5, pmerge=0.35):
+    """one release line whose history is a DAG with parallel sub-branches (C06 style); the head is the last commit"""
+    commits = []
+    for i in range(n):
+        if i == 0:
+            ps = []
+        else:
+            k = 2 if (i > 1 and rng.random() < pmerge) else 1
+            cands = list(range(max(0, i - 4), i))
+            ps = rng.sample(cands, min(k, len(cands)))
+        commits.append({"p": ps, "line": name, "tagged": i == 0 or rng.random() < ptag,
+                        "m": 1 if rng.random() < pmatch else 0, "pins": {}})
+    return commits, [[name, n - 1]]
+
+
+def add_pins_dag(rng, parent_commits, comp_name, comp_commits, comp_head, monotone):
+    """pins on a DAG-shaped component: `monotone` = the new pin always contains the pins of the parents"""
+    ch = {"commits": comp_commits}
+    reach = G.anc(ch, comp_head)
+    builds = [i for i, c in enumerate(comp_commits) if c["tagged"] and i in reach]
+    ancs = {b: G.anc(ch, b) for b in builds}
+    pin = {}
+    for i, c in enumerate(parent_commits):
+        prev = [pin[p] for p in c["p"]]
+        if monotone:
+            cands = [b for b in builds if all(q in ancs[b] for q in prev)]
+        else:
+            cands = [b for b in builds if all(q <= b for q in prev)]
+        cands = cands[:3] if cands else [max(prev)]
+        pin[i] = rng.choice(cands)
+        M, m = ver_of(comp_commits[pin[i]]["line"])
+        c["pins"][comp_name] = [M, m, pin[i] + 1]
+
+
 LIB_LINES = ["release/10.20", "release/10.21", "master"]
 APP_LINES = ["release/5.1", "release/5.2", "master"]
 MID_LINES = ["release/7.1", "release/7.3"]
 
 
 def gen_col(rng, shape, lib_lines):
-    lib, lheads = gen_repo(rng, lib_lines, LIB_LINES, pmerge=0.1)
+    if shape in ("dag-monotone", "dag-numeric", "dagapp-daglib"):
+        lib, lheads = gen_dag_repo(rng, "release/10.20", rng.randint(4, 9))
+    elif shape == "dagapp-linlib":
+        lib, lheads = gen_dag_repo(rng, "release/10.20", rng.randint(3, 7), ptag=0.9, pmatch=0.7, pmerge=0.0)
+        for i, c in enumerate(lib):
+            c["p"] = [i - 1] if i else []
+    else:
+        lib, lheads = gen_repo(rng, lib_lines, LIB_LINES, pmerge=0.1)
     lib[0]["tagged"] = True
-    app, aheads = gen_repo(rng, 3, APP_LINES)
+    if shape.startswith("dagapp"):
+        n = rng.randint(4, 9)
+        app, aheads = gen_dag_repo(rng, "release/5.2", n, ptag=0.8, pmatch=0.2, pmerge=0.45)
+        for c in app:
+            c["line"] = "release/5.2"
+        if rng.random() < 0.5:
+            aheads.append(["release/5.1", rng.randrange(n)])
+        if rng.random() < 0.3:
+            aheads.append(["master", rng.randrange(n)])
+    else:
+        app, aheads = gen_repo(rng, 3, APP_LINES)
     repos = []
-    if shape == "app-lib":
+    if shape.startswith("dag"):
+        add_pins_dag(rng, app, "lib", lib, lheads[0][1], monotone=(shape != "dag-numeric"))
+        repos = [{"name": "app", "deps": ["lib"], "hist": None}, {"name": "lib", "deps": [], "hist": None}]
+        raw = {"app": (app, aheads), "lib": (lib, lheads)}
+    elif shape == "app-lib":
         add_pins(rng, app, "lib", lib)
         repos = [{"name": "app", "deps": ["lib"] + (["zeta"] if rng.random() < 0.2 else []), "hist": None},
                  {"name": "lib", "deps": [], "hist": None}]
@@ -427,6 +558,12 @@ def gen_cases(rng, tier):
     for k in range(n_col):
         shape = ["app-lib", "app-lib", "app-lib-util", "chain"][k % 4]
         yield mk_case(gen_col(rng, shape, 1 if k % 3 else 2), shape + ("/1line" if k % 3 else "/2lines"))
+    for k in range(n_col // 2):
+        shape = "dag-monotone" if k % 4 else "dag-numeric"
+        yield mk_case(gen_col(rng, shape, 1), shape)
+    for k in range(n_col // 2):
+        shape = "dagapp-linlib" if k % 3 else "dagapp-daglib"
+        yield mk_case(gen_col(rng, shape, 1), shape)
     for _ in range(3000 if tier == "quick" else 40000):
         yield gen_ord(rng)
 
@@ -503,8 +640,39 @@ def nontrivial(case, replies):
     return "~" in replies[0]
 
 
+def corpus():
+    # pins moving between parallel sub-branches of the component (see LEVEL_NOTE): correspondence only
+    lib = {"commits": [{"p": [], "t": [[10, 20, 1, 1]], "m": 1, "pins": {}}, {"p": [0], "t": [[10, 20, 2, 2]], "m": 1, "pins": {}},
+                       {"p": [0], "t": [[10, 20, 3, 3]], "m": 1, "pins": {}}, {"p": [1, 2], "t": [[10, 20, 4, 4]], "m": 0, "pins": {}}],
+           "refs": [["release/10.20", 3]]}
+    app = {"commits": [{"p": [], "t": [[5, 1, 1, 1]], "m": 0, "pins": {"lib": [10, 20, 2]}},
+                       {"p": [0], "t": [[5, 1, 2, 2]], "m": 0, "pins": {"lib": [10, 20, 3]}},
+                       {"p": [1], "t": [[5, 1, 3, 3]], "m": 0, "pins": {"lib": [10, 20, 4]}}],
+           "refs": [["release/5.1", 2]]}
+    out = [mk_case([{"name": "app", "deps": ["lib"], "hist": app}, {"name": "lib", "deps": [], "hist": lib}],
+                   "corpus-pin-crosses-parallel-builds")]
+    # a diamond of reported component builds: 10.20.4 is registered again at the unbuilt head (see LEVEL_NOTE)
+    lib2 = {"commits": [{"p": [], "t": [], "m": 0, "pins": {}}, {"p": [0], "t": [], "m": 0, "pins": {}},
+                        {"p": [0], "t": [], "m": 0, "pins": {}}, {"p": [2, 0], "t": [[10, 20, 4, 4]], "m": 1, "pins": {}},
+                        {"p": [2, 3], "t": [[10, 20, 5, 5]], "m": 1, "pins": {}}, {"p": [3, 1], "t": [[10, 20, 6, 6]], "m": 1, "pins": {}},
+                        {"p": [5, 4], "t": [], "m": 0, "pins": {}}, {"p": [5, 6], "t": [[10, 20, 8, 8]], "m": 0, "pins": {}}],
+            "refs": [["release/10.20", 7]]}
+    app2 = {"commits": [{"p": [], "t": [], "m": 0, "pins": {"lib": [10, 20, 4]}},
+                        {"p": [0], "t": [[5, 1, 2, 2]], "m": 0, "pins": {"lib": [10, 20, 6]}},
+                        {"p": [1], "t": [], "m": 0, "pins": {"lib": [10, 20, 8]}}],
+            "refs": [["release/5.2", 2]]}
+    out.append(mk_case([{"name": "app", "deps": ["lib"], "hist": app2}, {"name": "lib", "deps": [], "hist": lib2}],
+                       "corpus-component-diamond"))
+    return out
+
+
 def tags(case, replies):
     yield case.get("meta", {}).get("kind", "?")
+    if case["lines"][0].startswith("col"):
+        if known_pin_cross(case):
+            yield "pin-crosses-parallel-builds(not judged)"
+        elif known_component_merges(case):
+            yield "component-with-merges(not judged)"
     rep = replies[0]
     if rep.startswith("err"):
         yield "reply:" + rep
@@ -520,6 +688,21 @@ def tags(case, replies):
             yield "included-at>1"
 
 
-LEVEL_TEXT = "under construction"
-LEVEL_NOTE = "under construction"
-TECHNIQUE = "Lean 4 theorems on an executable model of RGraph/ReposCollection + correspondence check on multi-repository scenarios"
+LEVEL_TEXT = ("Repository ordering is fully proved on the model the driver runs (the DFS of ReposCollection.__init__ with its "
+              "path-name stack): the result is a permutation with every component before its owners (repo_order), it depends "
+              "only on the set of repositories (repo_order_independent), ValueError is raised exactly for cyclic dependency "
+              "graphs incl. self-dependencies (cycle_rejected) and nothing else can happen (repo_order_total). The included_at / "
+              "bump clauses rest on the executable model of _mk_bumps_info, bn_map, pending bumps, get_rbuilds_in_bump and the "
+              "registration loop being equal to the real code on generated multi-repository scenarios, judged by an independent "
+              "oracle (minimal own builds whose pin contains the component build); the Lean theorems about them are partial "
+              "(see the theorem list: *_partial).")
+LEVEL_NOTE = ("GENUINE FINDING: for a component history with a diamond of reported builds ComponentBump.get_rbuilds_in_bump stops "
+              "only at from_rbuilds, not at their ancestors, and registers component builds again that an earlier parent build "
+              "already shipped (corpus case 'corpus-component-diamond'; also when the pin moves between parallel component "
+              "builds, 'corpus-pin-crosses-parallel-builds'). Such scenarios are generated and compared (model = code) but not "
+              "judged by the included_at oracle until the coordinator records the finding (KNOWN matchers exist). Trusted: Lean "
+              "kernel, translator, adapter, mock git, sampled correspondence (2-3 repositories, linear and DAG-shaped components "
+              "and parents, 1-2 component release lines, both supply orders; 6-node dependency graphs). Not modelled: commit "
+              "times (inside the cut-off windows by the quantifier), repository names (ranks in sorted() order).")
+TECHNIQUE = ("Lean 4: DFS invariant (topological order, path stack) for the repository ordering; executable model of bumps / "
+             "bn_map / included_at + correspondence and spec oracle on multi-repository scenarios")
